@@ -19,7 +19,8 @@ ASSUMPTIONS = ['context bound 2 with B run to completion; schedules with three o
                'CPython with the GIL: a preemption can only happen between bytecodes, which the LINE / INSTRUCTION events enumerate']
 
 GEO = ['l2c_mid', 'l2c_pole', 'l2c_anti_hi', 'c2l_deep', 'c2b_auto_low', 'c2b_seg']
-OTHER = ['c2l_low', 'compact', 'uncompact', 'children', 'parent', 'hex', 'meta', 'res0', 'l2c_mid_alt', 'l2c_pole_alt', 'l2c_anti_alt']
+OTHER = ['c2l_low', 'compact', 'uncompact', 'children', 'parent', 'hex', 'meta', 'res0', 'l2c_mid_alt', 'l2c_pole_alt', 'l2c_anti_alt',
+         'hex_b', 'parent_b', 'children_b']
 
 
 def catalogue(a5, seed):
@@ -61,6 +62,9 @@ def catalogue(a5, seed):
         'children': ('cell_to_children', [c9, 11]),
         'parent': ('cell_to_parent', [c20, 4]),
         'hex': ('hex_roundtrip', [c20]),
+        'hex_b': ('u64_to_hex', [c26]),
+        'parent_b': ('cell_to_parent', [c26, 11]),
+        'children_b': ('cell_to_children', [c3, 5]),
         'meta': ('meta', [c9]),
         'res0': ('get_res0_cells', []),
     }
@@ -89,7 +93,7 @@ def plan(tier, seed):
     nsh = 12 if tier == 'quick' else 32
     for i in range(nsh):
         specs.append({'part': 'inject', 'pairs': geo_pairs[i::nsh], 'cap': 800 if tier == 'quick' else 0, 'mode': 'line'})
-    nso = 2 if tier == 'quick' else 8
+    nso = 3 if tier == 'quick' else 8
     for i in range(nso):
         specs.append({'part': 'inject', 'pairs': other_pairs[i::nso], 'cap': 40 if tier == 'quick' else 0, 'mode': 'line'})
     nsi = 3 if tier == 'quick' else 12
@@ -270,6 +274,12 @@ def run_shard(spec, ctx):
             c = a5.lonlat_to_cell(p, r)
             extra.append(('lonlat_to_cell', [list(p), r]))
             extra.append(('cell_to_lonlat', [c]) if i % 2 else ('cell_to_boundary', [c, {'segments': 2}]))
+            extra.append(('u64_to_hex', [c]))
+            extra.append(('hex_to_u64', [a5.u64_to_hex(c)]))
+            if i % 4 == 0:
+                extra.append(('cell_to_parent', [c, max(-1, r - 3)]))
+                extra.append(('cell_to_children', [c, min(29, r + 2)]))
+                extra.append(('get_resolution', [c]))
         ops += [make_call(a5, s) for s in extra]
         expected = [sched.canon(f()) for f in ops]
         res = sched.thread_stress(ops, expected, spec['threads'], spec['seconds'], '%s/%s' % (spec['seed'], spec['shard']))
